@@ -69,6 +69,25 @@ def check_frame(frame):
     r.bad('C13/header-wrong', 'header written %r, expected %r' % (got, fk.parse_header(exp_header)))
   elif chunks != exp:
     r.bad('C13/payload-wrong', 'chunks after the header: %r..., expected payload of %d bytes' % ([c[:16] for c in chunks[1:3]], len(payload)))
+  # (a') the same message object sent again with other field values (a sender that re-uses one message per stream and
+  # sets .data / .arg0 per chunk): every frame is framed from the values the object has when it is written
+  try:
+    msg = mk_msg(m, frame)
+    t2 = fk.ChunkTransport()
+    ad2 = m.adb_message.AdbTransportAdapter(t2)
+    ad2.write_message(msg, pt(m, 1000))
+    payload2 = payload[::-1] + 'Z'
+    msg.data = payload2
+    msg.arg0 = (a0 + 1) & 0xFFFFFFFF
+    ad2.write_message(msg, pt(m, 1000))
+    chunks2 = [c for c in t2.written if len(c)]
+    exp2 = exp + [fk.header(cmd, (a0 + 1) & 0xFFFFFFFF, a1, payload2), payload2]
+    if chunks2 != exp2:
+      r.bad('C13/reused-message-framed-from-stale-values', 'second write of the same message object: wrote %r, expected header %r + %d payload bytes' % (
+          [fk.parse_header(c) if isinstance(c, bytes) and len(c) == 24 else c[:12] for c in chunks2[len(exp):]],
+          fk.parse_header(exp2[len(exp)]), len(payload2)))
+  except Exception as e:  # pylint: disable=broad-except
+    r.bad('C13/write-raised/%s' % type(e).__name__, 'rewriting a message object raised %r' % (e,))
   # (b) round trip through read_message
   rt = fk.ChunkTransport(fk.frame_chunks(cmd, a0, a1, payload))
   try:
